@@ -7,6 +7,7 @@ import (
 	"io"
 	"math"
 	"strings"
+	"time"
 
 	"github.com/talostrading/sonic"
 	"github.com/talostrading/sonic/sonicerrors"
@@ -690,9 +691,10 @@ func init() {
 			"io.Writer/io.Reader test doubles return either (n>0, nil) or (0, err), never both",
 			"Prefault (zeroes the whole backing array by design) is not part of the API list of the statement and is not called",
 		},
-		Builds:   func(string) []string { return []string{"checkptr"} },
-		NumCases: func(tier, build string) int { return vf.Tiered(tier, 4000, 3000000) },
-		Floor:    func(tier string) int { return vf.Tiered(tier, 500, 20000) },
-		Run:      runC09,
+		Builds:      func(string) []string { return []string{"checkptr"} },
+		NumCases:    func(tier, build string) int { return vf.Tiered(tier, 4000, 3000000) },
+		Floor:       func(tier string) int { return vf.Tiered(tier, 500, 20000) },
+		CaseTimeout: 30 * time.Second,
+		Run:         runC09,
 	})
 }
